@@ -1,5 +1,8 @@
 import Proofs.C13Exec
 import Proofs.C13Conc
+import Proofs.C13Cancel
+import Proofs.C13Metrics
+import Proofs.C13Refine
 /-!
 # C13 — retries, idempotence and speculative execution (property theorems)
 
@@ -144,6 +147,48 @@ theorem C13_context_done_before (req : Req) (pol : Option Policy) (outcome : Nat
   cases nextUsable (us k) ids with
   | none => simp
   | some p => simp [Req.record_eq]
+
+/-- **cancellation between an attempt and its retry decision** (the context ends in `SelectedHost.Mark`, after the
+    attempt of request `x`): no request numbered above `x` reaches a server — whatever the policy answers —, the
+    execution makes at most ONE further attempt, which ends with the context's error, and every attempt is still
+    counted; for every statement kind, policy, outcome sequence, host list and changing environment -/
+theorem C13_cancel_before_decision (req : Req) (pol : Option Policy) (outcome : Nat → Res) (us : Nat → Nat → Bool)
+    (fuel : Nat) (ids : List Nat) (k cnt cons x : Nat) :
+    let r := executeX req pol outcome us fuel ids k cnt cons false (some x)
+    r.sent.length ≤ x + 1 - k ∧ r.out.attempts.length ≤ r.sent.length + 1 ∧
+    (∀ i a, r.out.attempts[i]? = some a → x + 1 - k ≤ i → a.res = .logical) ∧
+    r.out.cnt = cnt + r.out.attempts.length := by
+  intro r
+  have hg := doQuery_good req pol (fun n => if n > x then .logical else outcome n) us fuel ids k cnt cons
+  have hdead : ∀ i a, r.out.attempts[i]? = some a → x + 1 - k ≤ i → a.res = .logical := by
+    intro i a ha hi
+    have := (hg.2.2.1 i a ha).2.1
+    rw [this]
+    have : k + i > x := by omega
+    simp [this]
+  refine ⟨by simp [r, executeX, List.length_take]; omega, ?_, hdead, hg.2.1⟩
+  by_cases hlen : r.out.attempts.length ≤ x + 1 - k
+  · have : r.sent = r.out.attempts := by
+      show List.take (x + 1 - k) r.out.attempts = r.out.attempts
+      exact List.take_of_length_le hlen
+    rw [this]; omega
+  · have hlt : x + 1 - k < r.out.attempts.length := by omega
+    have hs : r.sent.length = x + 1 - k := by
+      simp only [r, executeX, Bool.false_eq_true, if_false, List.length_take]
+      exact Nat.min_eq_left (by
+        have : x + 1 - k < (doQuery req pol (fun n => if n > x then Res.logical else outcome n) us fuel ids k cnt cons).attempts.length := hlt
+        omega)
+    have ha : r.out.attempts[x + 1 - k]? = some (r.out.attempts[x + 1 - k]) := List.getElem?_eq_getElem hlt
+    have hl := hdead _ _ ha (Nat.le_refl _)
+    have := doLoop_stop_last req pol (fun n => if n > x then .logical else outcome n) us fuel ids k cnt cons none _ _ ha (Or.inl hl)
+    have e2 : r.out.attempts.length = (doLoop req pol (fun n => if n > x then Res.logical else outcome n) us fuel ids k cnt cons none).attempts.length := rfl
+    omega
+
+/-- non-vacuity: the first attempt fails (read timeout: the downgrading policy answers Retry), the context ends
+    before the decision: one more attempt is counted and observed, the server sees one request, the caller gets
+    the context's error -/
+example : executeX ⟨.query, true⟩ (some (downgradingPolicyL [2, 1])) (fun _ => .err kReadTO) (fun _ _ => true) 10 [1, 2] 0 0 4 false (some 0) =
+    ⟨⟨[⟨1, 0, 4, .err 7⟩, ⟨1, 1, 2, .logical⟩], .last .logical, 2, 2⟩, [⟨1, 0, 4, .err 7⟩], true⟩ := by decide
 
 /-- what reaches servers in one execution (context done or not) stays within the budget -/
 theorem C13_budget_execute (req : Req) (p : Policy) (N : Nat) (hp : ∀ m, p.attempt m = decide (m ≤ N))
@@ -297,6 +342,321 @@ theorem C13_shared_no_policy (c0 hosts e : Nat) (sched : List ExecutorConc.Act) 
     let m := ExecutorConc.run none (ExecutorConc.init c0 hosts e) sched
     m.sent ≤ ExecutorConc.started m.exs ∧ ExecutorConc.started m.exs ≤ e :=
   ExecutorConc.run_no_policy c0 hosts e sched
+
+/-! ### the built-in policies' decisions on error VALUES (`ReqErr`: what `GetRetryType(err)` switches on) -/
+
+/-- **the decision table the executor theorems use is the policy's switch**: filing an error value under its
+    abstract kind (`kindOf`) and looking the kind up (`downgradingRType`, used by `downgradingPolicyL` in every
+    theorem above) gives exactly what `DowngradingConsistencyRetryPolicy.GetRetryType` answers on the value —
+    for every write type string, every number of acknowledgements / live replicas, every other error — and the
+    answer is never an undefined retry type -/
+theorem C13_downgrading_decisions (e : ReqErr) :
+    downgradingRType (kindOf e) = downgradingGetRetryType e ∧ downgradingGetRetryType e ≠ .unknown := by
+  cases e with
+  | unavailable r a =>
+    by_cases h : a > 0 <;> simp [kindOf, downgradingGetRetryType, downgradingRType, h, kUnavailableAlive, kUnavailableNone]
+  | writeTimeout wt rc bf =>
+    by_cases h : rc > 0 <;> cases wt <;>
+      simp [kindOf, downgradingGetRetryType, downgradingRType, h, kUnavailableAlive, kUnavailableNone, kWriteTOSimpleRecv,
+        kWriteTOSimpleNone, kWriteTOUnlogged, kWriteTOOther]
+  | readTimeout rc bf dp =>
+    simp [kindOf, downgradingGetRetryType, downgradingRType, kUnavailableAlive, kUnavailableNone, kWriteTOSimpleRecv,
+      kWriteTOSimpleNone, kWriteTOUnlogged, kWriteTOOther, kReadTO]
+  | other =>
+    simp [kindOf, downgradingGetRetryType, downgradingRType, kUnavailableAlive, kUnavailableNone, kWriteTOSimpleRecv,
+      kWriteTOSimpleNone, kWriteTOUnlogged, kWriteTOOther, kReadTO]
+
+/-- FULL STATEMENT (fails on the unchanged code, proposed finding KF-C13-3): wherever the documentation of
+    DowngradingConsistencyRetryPolicy says what happens, `GetRetryType` does it:
+      ∀ e r, Spec.downgradingDoc e = some r → downgradingGetRetryType e = r.
+    Proved part: every error value except a write timeout of an UNLOGGED_BATCH that NO replica acknowledged. -/
+theorem C13_downgrading_follows_doc_partial (e : ReqErr) (r : RT) (h : Spec.downgradingDoc e = some r)
+    (hx : ∀ bf, e ≠ .writeTimeout .unloggedBatch 0 bf) : downgradingGetRetryType e = r := by
+  cases e with
+  | unavailable rq a => simp [Spec.downgradingDoc] at h; simp [downgradingGetRetryType, h]
+  | readTimeout rc bf dp => simp [Spec.downgradingDoc] at h; simp [downgradingGetRetryType, h]
+  | other => simp [Spec.downgradingDoc] at h
+  | writeTimeout wt rc bf =>
+    cases wt <;> simp [Spec.downgradingDoc] at h <;> try (simp [downgradingGetRetryType, h])
+    -- UNLOGGED_BATCH
+    have hrc : rc ≠ 0 := by
+      intro h0; subst h0; exact hx bf rfl
+    have : rc > 0 := Nat.pos_of_ne_zero hrc
+    simp [this] at h
+    exact h
+
+/-- the counterexample: documented "retried [only] if at least one replica acknowledged the write"; the code
+    answers Retry for an UNLOGGED_BATCH write timeout with Received = 0 -/
+theorem C13_cex_downgrading_unlogged_unacked :
+    downgradingGetRetryType (.writeTimeout .unloggedBatch 0 1) = .retry ∧
+    Spec.downgradingDoc (.writeTimeout .unloggedBatch 0 1) = some .rethrow := by
+  decide
+
+/-- **Attempt of the built-in policies**: `DowngradingConsistencyRetryPolicy.Attempt` (answer and the consistency
+    it sets) and `SimpleRetryPolicy.Attempt` / `ExponentialBackoffRetryPolicy.Attempt` are the decision functions
+    the executor theorems are stated for (`downgradingPolicyL`, `simplePolicy`, `exponentialPolicy`), for every
+    value of `Attempts()` and every list of levels -/
+theorem C13_builtin_attempt (ls : List Nat) (n N : Nat) :
+    (downgradingAttempt ls n).1 = (downgradingPolicyL ls).attempt n ∧
+    ((downgradingAttempt ls n).1 = true → (downgradingAttempt ls n).2 = (downgradingPolicyL ls).newCons n) ∧
+    (simpleAttempt N n).1 = (simplePolicy N).attempt n ∧ (simpleAttempt N n).1 = (exponentialPolicy N).attempt n ∧
+    (simpleAttempt N n).2 = (simplePolicy N).newCons n := by
+  refine ⟨?_, ?_, rfl, rfl, rfl⟩
+  · unfold downgradingAttempt downgradingPolicyL
+    by_cases h : n > ls.length
+    · simp [h]
+    · by_cases h0 : n > 0 <;> simp [h, h0] <;> omega
+  · unfold downgradingAttempt downgradingPolicyL
+    by_cases h : n > ls.length
+    · simp [h]
+    · by_cases h0 : n > 0
+      · simp [h, h0]; intro hz; omega
+      · have : n = 0 := by omega
+        simp [this]
+
+/-- **what the caller sees under the downgrading policy, per error value**: an Unavailable with no live replica, a
+    SIMPLE / BATCH / COUNTER write timeout (acknowledged or not) and a write timeout of any other write type except
+    UNLOGGED_BATCH end the execution with THAT attempt — one request for it, its error the caller's — for every
+    statement kind, host list, environment, counter value and list of levels -/
+theorem C13_downgrading_stops (req : Req) (ls : List Nat) (outcome : Nat → Res) (us : Nat → Nat → Bool) (fuel : Nat)
+    (h : Nat) (rest : List Nat) (k cnt cons : Nat) (e : ReqErr) (hu : us k h = true) (ho : outcome k = .err (kindOf e))
+    (hd : downgradingGetRetryType e = .rethrow ∨ downgradingGetRetryType e = .ignore) :
+    let o := doLoop req (some (downgradingPolicyL ls)) outcome us (fuel+1) (h :: rest) k cnt cons none
+    o.attempts = [⟨h, cnt, cons, .err (kindOf e)⟩] ∧ o.final = .last (.err (kindOf e)) := by
+  have hk : (downgradingPolicyL ls).rtype (kindOf e) = downgradingGetRetryType e := (C13_downgrading_decisions e).1
+  exact C13_rethrow_ignore_stop req (downgradingPolicyL ls) outcome us fuel h rest k cnt cons (kindOf e) hu ho (by rw [hk]; exact hd)
+
+example : downgradingGetRetryType (.writeTimeout .cas 2 3) = .rethrow ∧ downgradingGetRetryType (.writeTimeout .batch 1 2) = .ignore ∧
+    downgradingGetRetryType (.unavailable 2 1) = .retry ∧ downgradingAttempt [4, 1] 2 = (true, some 1) ∧
+    downgradingAttempt [4, 1] 3 = (false, none) := by decide
+
+/-! ### the statement's metrics (`queryMetrics`: Attempts(), Latency(), the observers' per-host Metrics) -/
+
+/-- **metrics are exact**: for EVERY history of attempts (host and latency of each, any number of hosts, also a
+    statement object executed again: `pre` = the attempts of its earlier executions) the code's bookkeeping (a map
+    of per-host counters updated under one lock) hands the observer of the j-th new attempt the number
+    `|pre| + j`, the number of attempts made on that attempt's host so far and the sum of their latencies, and
+    afterwards `Attempts()` is the number of all attempts and `Latency()` the integer average of all latencies -/
+theorem C13_metrics_exact (pre rest : List (Nat × Nat)) :
+    let q0 := (QM.run {} pre).1
+    let r := QM.run q0 rest
+    r.2 = (List.range rest.length).map (fun j => Spec.obsAt (pre ++ rest) (pre.length + j)) ∧
+    r.1.totalAttempts = (pre ++ rest).length ∧ r.1.latency = Spec.avgLatency (pre ++ rest) := by
+  intro q0 r
+  have h0 : MInv [] ({} : QM) := ⟨rfl, by intro h; rfl, by intro h; rfl, rfl, rfl⟩
+  have h1 := (run_spec pre [] {} h0).1
+  simp only [List.nil_append] at h1
+  have h2 := run_spec rest pre q0 h1
+  exact ⟨h2.2, h2.1.total, latency_spec _ _ h2.1⟩
+
+example : (QM.run {} [(1, 10), (2, 30), (1, 21)]) =
+    (⟨3, [⟨1, 2, 31⟩, ⟨2, 1, 30⟩]⟩, [⟨0, 1, 10⟩, ⟨1, 1, 30⟩, ⟨2, 2, 31⟩]) ∧
+    (QM.run {} [(1, 10), (2, 30), (1, 21)]).1.latency = 20 := by decide
+
+/-- **the two models agree**: the interleaving machine of the concurrent theorems, run with ONE execution that is
+    left alone (its attempt completes with the scripted outcome, it decides, …) over usable hosts, sends exactly as
+    many requests as the sequential model of `queryExecutor.do` makes attempts, counts the same `Attempts()` and
+    ends — for every statement kind, policy (arbitrary decision functions), outcome sequence, host list, counter
+    value; so every bound proved for the machine is a bound on `do`, and the machine adds nothing to a single
+    execution -/
+theorem C13_machine_refines_loop (req : Req) (pol : Option Policy) (outcome : Nat → Res) (fuel : Nat) (ids : List Nat)
+    (k cnt cons : Nat)
+    (hf : (doQuery req pol outcome ExecutorConc.allUp fuel ids k cnt cons).final ≠ .outOfFuel) :
+    let out := doQuery req pol outcome ExecutorConc.allUp fuel ids k cnt cons
+    let m := ExecutorConc.run pol (ExecutorConc.init cnt ids.length 1) (.launch 0 :: ExecutorConc.seqSched outcome fuel k)
+    m.sent = out.attempts.length ∧ m.cnt = out.cnt ∧ m.exs = [.done] := by
+  intro out m
+  cases fuel with
+  | zero => exact absurd rfl hf
+  | succ f =>
+    cases ids with
+    | nil =>
+      have hl : ExecutorConc.step pol (ExecutorConc.init cnt 0 1) (.launch 0) =
+          { ExecutorConc.init cnt 0 1 with exs := [.done] } := by
+        simp [ExecutorConc.step, ExecutorConc.init, ExecutorConc.M.sendNext]
+      have hm : m = { ExecutorConc.init cnt 0 1 with exs := [.done] } := by
+        show ExecutorConc.run pol _ _ = _
+        simp only [ExecutorConc.run, List.foldl_cons, List.length_nil]
+        rw [hl]
+        exact ExecutorConc.run_done pol outcome _ _ _ rfl
+      have ho : out = ⟨[], .noConnections, cnt, cons⟩ := by
+        show doLoop req pol outcome ExecutorConc.allUp (f+1) [] k cnt cons none = _
+        simp [doLoop, nextUsable]
+      rw [hm, ho]
+      simp [ExecutorConc.init]
+    | cons h rest =>
+      have hl : ExecutorConc.step pol (ExecutorConc.init cnt (h :: rest).length 1) (.launch 0) =
+          (⟨cnt, 1, rest.length, [.inflight], 0, []⟩ : ExecutorConc.M) := by
+        simp [ExecutorConc.step, ExecutorConc.init, ExecutorConc.M.sendNext]
+      have hm : m = ExecutorConc.run pol
+          (⟨cnt, 1, rest.length, [.inflight], 0, []⟩ : ExecutorConc.M)
+          (ExecutorConc.seqSched outcome (f+1) k) := by
+        show ExecutorConc.run pol _ _ = _
+        simp only [ExecutorConc.run, List.foldl_cons]
+        rw [hl]
+      have := ExecutorConc.refine_flight req pol outcome f h rest k cnt cons none
+        (⟨cnt, 1, rest.length, [.inflight], 0, []⟩ : ExecutorConc.M) rfl rfl rfl hf
+      have ho : out = doLoop req pol outcome ExecutorConc.allUp (f+1) (h :: rest) k cnt cons none := rfl
+      rw [hm, ho]
+      have h1 := this.1
+      simp only at h1
+      exact ⟨by omega, this.2.1, this.2.2⟩
+
+example : (ExecutorConc.run (some (downgradingPolicyL [4, 1])) (ExecutorConc.init 0 3 1)
+      (.launch 0 :: ExecutorConc.seqSched (fun n => if n = 0 then .err kReadTO else if n = 1 then .err 9 else .ok) 10 0)).sent = 3 ∧
+    (doQuery ⟨.query, false⟩ (some (downgradingPolicyL [4, 1])) (fun n => if n = 0 then .err kReadTO else if n = 1 then .err 9 else .ok)
+      ExecutorConc.allUp 10 [1, 2, 3] 0 0 6).attempts.length = 3 := by decide
+
+/-! ### cancellation at every point of concurrent executions (`ExecutorConc.MC`, `stepC`)
+
+`derived = true`: the statement's attempts run under the executor's derived context (`*Query`:
+`Conn.executeQuery(ctx, qry)` → `c.exec(ctx, …)`); `derived = false`: under the caller's own context (`*Batch`:
+`Conn.executeBatch(ctx, b)` → `c.exec(batch.Context(), …)`). -/
+
+/-- FULL STATEMENT (fails on the unchanged code for `*Batch`, proposed finding KF-C13-2): once `executeQuery` has
+    returned the caller's one result — and with it cancelled the context of its executions — no request of the
+    statement reaches a server any more:
+      ∀ derived pol c sched, c.execDone = true → (runC pol derived c sched).m.sent = c.m.sent.
+    Proved part: it holds whenever the cancellation reaches the attempts, i.e. for every `*Query` (`derived`) after
+    the result or the caller's cancellation, and for every statement kind after the CALLER's context is done — from
+    EVERY state (executions not launched, with a request in flight, with an attempt counted and the retry decision
+    pending), every policy, every further schedule, whatever answers still come in. -/
+theorem C13_cancel_stops_requests_partial (pol : Option Policy) (derived : Bool) (c : ExecutorConc.MC)
+    (sched : List ExecutorConc.ActC) (h : c.attDone derived = true) :
+    (ExecutorConc.runC pol derived c sched).m.sent = c.m.sent ∧
+    (ExecutorConc.runC pol derived c sched).attDone derived = true :=
+  let r := ExecutorConc.runC_frozen pol derived sched c h
+  ⟨r.2, r.1⟩
+
+/-- the counterexample on the code as it is (`derived = false`, a logged/unlogged/counter batch): two executions in
+    flight, the first is answered, the caller has its result and the executor has cancelled its context — the second
+    execution's request is answered with an error later and the batch is sent to a third host -/
+theorem C13_cex_batch_loser_not_cancelled :
+    let c := ExecutorConc.runC (some (simplePolicy 2)) false (ExecutorConc.initC 0 3 2)
+      [.ex (.launch 0), .ex (.launch 1), .ex (.complete 0 .ok), .ex (.decide 0), .execCancel]
+    let c' := ExecutorConc.runC (some (simplePolicy 2)) false c [.ex (.complete 1 (.err 9)), .ex (.decide 1)]
+    c.result = some (.res .ok) ∧ c.execDone = true ∧ c.m.sent = 2 ∧ c'.m.sent = 3 := by
+  decide
+
+/-- **the caller's cancellation stops further attempts, every statement kind**: whatever has happened before
+    (`pre`), after the caller's context is done no further request is sent, for every policy and every further
+    schedule; (`C13_shared_quiescent_accounted`: each execution still counts at most one attempt that reaches no
+    server) -/
+theorem C13_caller_cancel_stops_requests (pol : Option Policy) (derived : Bool) (c0 hosts e : Nat)
+    (pre post : List ExecutorConc.ActC) :
+    (ExecutorConc.runC pol derived (ExecutorConc.initC c0 hosts e) (pre ++ .callerCancel :: post)).m.sent =
+    (ExecutorConc.runC pol derived (ExecutorConc.initC c0 hosts e) pre).m.sent := by
+  rw [ExecutorConc.runC_append]
+  simp only [ExecutorConc.runC, List.foldl_cons]
+  have h := ExecutorConc.runC_frozen pol derived post
+    (ExecutorConc.stepC pol derived (List.foldl (ExecutorConc.stepC pol derived) (ExecutorConc.initC c0 hosts e) pre) .callerCancel)
+    (by simp [ExecutorConc.stepC, ExecutorConc.MC.attDone])
+  exact h.2
+
+/-- **a `*Query`'s losing executions stop with the result**: once the executor has cancelled its context
+    (`execCancel`, which it does only with a result in hand) no further request of the query is sent -/
+theorem C13_query_result_stops_requests (pol : Option Policy) (c : ExecutorConc.MC) (sched : List ExecutorConc.ActC)
+    (h : c.execDone = true) : (ExecutorConc.runC pol true c sched).m.sent = c.m.sent :=
+  (ExecutorConc.runC_frozen pol true sched c (by simp [ExecutorConc.MC.attDone, h])).2
+
+/-- **exactly one result, the first**: what the caller holds never changes, whatever the executions do afterwards -/
+theorem C13_first_result_wins (pol : Option Policy) (derived : Bool) (c : ExecutorConc.MC) (r : ExecutorConc.CRes)
+    (sched : List ExecutorConc.ActC) (h : c.result = some r) : (ExecutorConc.runC pol derived c sched).result = some r :=
+  ExecutorConc.runC_result pol derived r sched c h
+
+/-- **the caller waits exactly as long as nothing has completed**: in every reachable state without a result no
+    execution has returned and neither context is done — so the first execution to return (or the caller's own
+    cancellation) is what produces the result, and the executor cancels nothing before it has one -/
+theorem C13_result_iff_completed (pol : Option Policy) (derived : Bool) (c0 hosts e : Nat) (sched : List ExecutorConc.ActC) :
+    let c := ExecutorConc.runC pol derived (ExecutorConc.initC c0 hosts e) sched
+    c.result = none → c.callerDone = false ∧ c.execDone = false ∧ ExecutorConc.wsum ExecutorConc.wD c.m.exs = 0 := by
+  intro c hr
+  have w := ExecutorConc.runC_waiting pol derived sched (ExecutorConc.initC c0 hosts e)
+    (fun _ => ExecutorConc.waiting_init c0 hosts e) hr
+  exact ⟨w.caller, w.exec, w.none_done⟩
+
+/-- **budget and accounting with cancellation**: the bounds of `C13_shared_counter_budget` and the numbering of
+    `C13_shared_attempts_numbered` hold for every schedule that contains cancellations at any point -/
+theorem C13_cancel_budget (p : Policy) (N : Nat) (hp : ∀ m, p.attempt m = decide (m ≤ N)) (derived : Bool)
+    (c0 hosts e : Nat) (sched : List ExecutorConc.ActC) :
+    let m := (ExecutorConc.runC (some p) derived (ExecutorConc.initC c0 hosts e) sched).m
+    m.sent ≤ ExecutorConc.budget (N - c0) e ∧ m.log = ExecutorConc.down c0 (m.cnt - c0) ∧
+    (ExecutorConc.quiet m.exs = true → m.cnt = c0 + m.sent + m.unsent) := by
+  intro m
+  have hi : ExecutorConc.Inv N c0 e m :=
+    ExecutorConc.runC_inv p N hp derived c0 e sched _ (ExecutorConc.inv_init N c0 hosts e)
+  have hs : ExecutorConc.wsum ExecutorConc.wS m.exs ≤ e := by
+    rw [← hi.toAcc.len]
+    exact ExecutorConc.wsum_le_length ExecutorConc.wS (by intro x; cases x <;> simp [ExecutorConc.wS]) _
+  have hb := hi.bound
+  refine ⟨by unfold ExecutorConc.budget; omega, hi.toAcc.log, ?_⟩
+  intro hq
+  have := ExecutorConc.wsum_wI_quiet m.exs hq
+  have := hi.toAcc.acc
+  omega
+
+/-- **the consistency level under concurrent executions**: the statement's level is written by `rt.Attempt` from
+    whichever execution decides and read by whichever execution sends next; for EVERY schedule (with cancellations
+    at any point) every request carries the statement's own level or one of the levels configured in
+    DowngradingConsistencyRetryPolicy, and so does the statement afterwards; under a policy that never sets a level
+    (Simple, ExponentialBackoff, none) every request carries the statement's own. The machine underneath is the one
+    of the theorems above (`runK … .c = runC …`). -/
+theorem C13_shared_consistency (derived : Bool) (c0 hosts e cons0 : Nat) (sched : List ExecutorConc.ActC) :
+    (∀ ls : List Nat,
+      let k := ExecutorConc.runK (some (downgradingPolicyL ls)) derived (ExecutorConc.initK c0 hosts e cons0) sched
+      (∀ x ∈ k.reqCons, x = cons0 ∨ x ∈ ls) ∧ (k.cons = cons0 ∨ k.cons ∈ ls)) ∧
+    (∀ pol : Option Policy, (∀ p n, pol = some p → p.newCons n = none) →
+      let k := ExecutorConc.runK pol derived (ExecutorConc.initK c0 hosts e cons0) sched
+      (∀ x ∈ k.reqCons, x = cons0) ∧ k.cons = cons0) ∧
+    (∀ pol : Option Policy, (ExecutorConc.runK pol derived (ExecutorConc.initK c0 hosts e cons0) sched).c =
+      ExecutorConc.runC pol derived (ExecutorConc.initC c0 hosts e) sched) := by
+  have start : ∀ pol : Option Policy, ExecutorConc.Level pol cons0 (ExecutorConc.initK c0 hosts e cons0).cons ∧
+      ∀ x ∈ (ExecutorConc.initK c0 hosts e cons0).reqCons, ExecutorConc.Level pol cons0 x :=
+    fun pol => ⟨Or.inl rfl, by intro x hx; simp [ExecutorConc.initK] at hx⟩
+  refine ⟨?_, ?_, fun pol => ExecutorConc.runK_c pol derived sched _⟩
+  · intro ls k
+    have h := ExecutorConc.runK_level (some (downgradingPolicyL ls)) derived cons0 sched _ (start _)
+    have conv : ∀ x, ExecutorConc.Level (some (downgradingPolicyL ls)) cons0 x → x = cons0 ∨ x ∈ ls := by
+      intro x hx
+      rcases hx with hx | ⟨p, n, hp, hn⟩
+      · exact Or.inl hx
+      · have : p = downgradingPolicyL ls := by injection hp with hp; exact hp.symm
+        subst this
+        simp only [downgradingPolicyL] at hn
+        split at hn
+        · simp at hn
+        · exact Or.inr (List.mem_of_getElem? hn)
+    exact ⟨fun x hx => conv x (h.2 x hx), conv _ h.1⟩
+  · intro pol hnone k
+    have h := ExecutorConc.runK_level pol derived cons0 sched _ (start _)
+    have conv : ∀ x, ExecutorConc.Level pol cons0 x → x = cons0 := by
+      intro x hx
+      rcases hx with hx | ⟨p, n, hp, hn⟩
+      · exact hx
+      · rw [hnone p n hp] at hn; simp at hn
+    exact ⟨fun x hx => conv x (h.2 x hx), conv _ h.1⟩
+
+/-- non-vacuity: execution 0 fails and decides (level 6 → 4), THEN execution 1 is launched: its FIRST request
+    already carries the downgraded level -/
+example :
+    let k := ExecutorConc.runK (some (downgradingPolicyL [4, 1])) true (ExecutorConc.initK 0 3 2 6)
+      [.ex (.launch 0), .ex (.complete 0 (.err kReadTO)), .ex (.decide 0), .ex (.launch 1)]
+    (k.reqCons, k.cons) = ([4, 4, 6], 4) := by decide
+
+/-- non-vacuity: a query with three executions — the winner's result cancels one execution in flight (it comes
+    back with the context's error), one whose Retry decision is pending (its next attempt reaches no server) and
+    one not launched (it takes a host, its attempt reaches no server): 3 requests, 3 + 2 attempts counted -/
+example :
+    let c := ExecutorConc.runC (some (downgradingPolicyL [1, 1, 1, 1])) true (ExecutorConc.initC 0 5 4)
+      [.ex (.launch 0), .ex (.launch 1), .ex (.launch 2), .ex (.complete 2 (.err kReadTO)), .ex (.complete 0 .ok),
+       .ex (.decide 0), .execCancel, .ex (.complete 1 .logical), .ex (.decide 1), .ex (.decide 2), .ex (.launch 3)]
+    (c.result, c.m.sent, c.m.cnt, c.m.unsent, ExecutorConc.quiet c.m.exs) = (some (.res .ok), 3, 5, 2, true) := by decide
+
+/-- … and the caller's cancellation before any answer: the caller holds the context's error, nothing more is sent -/
+example :
+    let c := ExecutorConc.runC (some (simplePolicy 3)) false (ExecutorConc.initC 0 4 2)
+      [.ex (.launch 0), .callerCancel, .ex (.launch 1), .ex (.complete 0 (.err 9)), .ex (.decide 0)]
+    (c.result, c.m.sent, c.m.cnt, c.m.unsent) = (some (.res .logical), 1, 3, 2) := by decide
 
 /-- FULL STATEMENT (fails on the unchanged code; doc.go: "Non-idempotent queries are not eligible for
     retrying"): a statement not marked idempotent is attempted at most once. `do` never looks at
